@@ -887,3 +887,90 @@ Lemma not_accepted_reported : forall p,
 Proof.
   intros p [es Hes] Hn. exists es. split; [assumption|]. intro; subst. contradiction.
 Qed.
+
+(* ---- F06 / F07 at the top level of a struct literal ---- *)
+Section LiteralFaults.
+  Variable E : env.
+  Variable T : tdef.
+
+  Definition literal_fields (j : json) : list (name * pv) :=
+    match parse_json j with PVStruct fs => fs | _ => [] end.
+
+  (* F07: a key of the literal that the struct definition lacks *)
+  Definition bad_literal_key (x : param) : bool :=
+    match x with
+    | PLit s (JObj fs) =>
+      match find_struct E s with
+      | Some sd => existsb (fun kv => negb (has_key (fst kv) (sd_attrs sd))) (literal_fields (JObj fs))
+      | None => false
+      end
+    | _ => false
+    end.
+
+  Lemma bad_literal_key_false : forall ti pi k x b1 e1,
+    bad_literal_key x = true -> check_input_param E T ti pi k x = Ok (b1, e1) -> b1 = false.
+  Proof.
+    intros ti pi k x b1 e1 Hb Hc. destruct x as [| |s j]; try discriminate. destruct j; try discriminate.
+    cbn [bad_literal_key check_input_param] in *. unfold check_literal in Hc. unfold literal_fields in Hb.
+    destruct (parse_json (JObj fs)) as [| | |fs'|]; try discriminate.
+    destruct (find_struct E s) as [sd|]; [|discriminate].
+    apply band_ok in Hc. destruct Hc as (x1 & er1 & y & er2 & H1 & H2 & -> & _).
+    apply existsb_exists in Hb. destruct Hb as (kv & Hin & Hk). apply negb_true_iff in Hk.
+    assert (y = false).
+    { eapply forall_from_false_at; [exact H2 | exact Hin|].
+      intros j b e0 H0. cbn beta in H0. rewrite Hk in H0. inversion H0. reflexivity. }
+    subst. apply andb_false_r.
+  Qed.
+
+  (* F06: an attribute of the struct definition that the literal lacks *)
+  Definition bad_literal_missing (x : param) : bool :=
+    match x with
+    | PLit s (JObj fs) =>
+      match find_struct E s with
+      | Some sd => existsb (fun a => negb (has_key (fst a) (literal_fields (JObj fs)))) (sd_attrs sd)
+      | None => false
+      end
+    | _ => false
+    end.
+
+  Lemma check_missing_false : forall c defattrs (fs : list (name * pv)) b e,
+    existsb (fun a => negb (has_key (fst a) fs)) defattrs = true ->
+    check_missing c defattrs fs = Ok (b, e) -> b = false.
+  Proof.
+    intros c defattrs fs. induction defattrs as [|[a t] r IH]; intros b e Hex Hc; [discriminate|].
+    cbn [existsb fst] in Hex. cbn [check_missing] in Hc.
+    destruct (has_key a fs); cbn [negb orb] in Hex; [eapply IH; eassumption|]. inversion Hc. reflexivity.
+  Qed.
+
+  Lemma bad_literal_missing_false : forall ti pi k x b1 e1,
+    bad_literal_missing x = true -> check_input_param E T ti pi k x = Ok (b1, e1) -> b1 = false.
+  Proof.
+    intros ti pi k x b1 e1 Hb Hc. destruct x as [| |s j]; try discriminate. destruct j; try discriminate.
+    cbn [bad_literal_missing check_input_param] in *. unfold check_literal in Hc. unfold literal_fields in Hb.
+    destruct (parse_json (JObj fs)) as [| | |fs'|]; try discriminate.
+    destruct (find_struct E s) as [sd|]; [|discriminate].
+    apply band_ok in Hc. destruct Hc as (x1 & er1 & y & er2 & H1 & H2 & -> & _).
+    rewrite (check_missing_false _ _ _ _ _ Hb H1). reflexivity.
+  Qed.
+End LiteralFaults.
+
+(* F06 *) Definition has_fault_literal_missing_attribute : program -> bool :=
+  fault_somewhere (fun E _ => f_param (bad_literal_missing E)).
+(* F07 *) Definition has_fault_literal_unknown_attribute : program -> bool :=
+  fault_somewhere (fun E _ => f_param (bad_literal_key E)).
+
+Theorem literal_missing_attribute_rejected : forall p,
+  has_fault_literal_missing_attribute p = true -> validate p <> Ok [].
+Proof.
+  apply (fault_somewhere_rejected (fun E _ => f_param (bad_literal_missing E))).
+  intros E T pi s b es H Hc. eapply (local_param_fault E T (bad_literal_missing E)); [|exact H|exact Hc].
+  intros. eapply bad_literal_missing_false; eassumption.
+Qed.
+
+Theorem literal_unknown_attribute_rejected : forall p,
+  has_fault_literal_unknown_attribute p = true -> validate p <> Ok [].
+Proof.
+  apply (fault_somewhere_rejected (fun E _ => f_param (bad_literal_key E))).
+  intros E T pi s b es H Hc. eapply (local_param_fault E T (bad_literal_key E)); [|exact H|exact Hc].
+  intros. eapply bad_literal_key_false; eassumption.
+Qed.
